@@ -158,6 +158,49 @@ def run_real_bad(case):
 		shutil.rmtree(tmp, ignore_errors=True)
 
 
+def run_reuse_after_failure(case):
+	"""one caller-supplied executor used for a call that fails part-way (truncated gzip as the LAST file) and then for a good call:
+	the second call must return exactly the single-file signatures"""
+	import gzip, os, shutil, tempfile
+	import numpy as np
+	from concurrent.futures import ThreadPoolExecutor, ProcessPoolExecutor
+	from gambit.kmers import KmerSpec
+	from gambit.seq import SequenceFile
+	from gambit.sigs.calc import calc_file_signatures, calc_file_signature
+	tmp = tempfile.mkdtemp(prefix='c13_')
+	try:
+		rnd = random.Random(case.get('seed', 0))
+		def fasta(i, contigs=8):
+			return ''.join(f'>c{i}_{j}\n' + ''.join(rnd.choice('ACGT') for _ in range(6000)) + '\n' for j in range(contigs))
+		good = []
+		for i in range(case.get('n', 3)):
+			p = os.path.join(tmp, f'g{i}.fasta')
+			open(p, 'w').write(fasta(i))
+			good.append(SequenceFile(p, 'fasta', 'auto'))
+		bad = os.path.join(tmp, 'bad.fasta.gz')
+		blob = gzip.compress(fasta(99, 12).encode())
+		open(bad, 'wb').write(blob[:int(len(blob) * .6)])
+		ks = KmerSpec(5, 'AT')
+		expected = [calc_file_signature(ks, f) for f in good]
+		Pool = ThreadPoolExecutor if case['pool'] == 'threads' else ProcessPoolExecutor
+		problems = []
+		with Pool(max_workers=case.get('workers', 1)) as ex:
+			first = good[:1] + [SequenceFile(bad, 'fasta', 'auto')]
+			try:
+				calc_file_signatures(ks, first, executor=ex)
+				problems.append('the call with the truncated file did not fail')
+			except Exception:
+				pass
+			for rep in range(2):
+				res = calc_file_signatures(ks, good, executor=ex)
+				if len(res) != len(good) or not all(np.array_equal(a, b) for a, b in zip(res, expected)):
+					problems.append(f'call {rep + 1} after the failed one: signatures differ from the single-file results (sizes {[len(x) for x in res]} vs {[len(x) for x in expected]})')
+					break
+		return {'ok': not problems, 'expected': 'single-file results', 'actual': problems or 'ok'}
+	finally:
+		shutil.rmtree(tmp, ignore_errors=True)
+
+
 _orig_run_case = run_case
 
 
@@ -166,6 +209,8 @@ def run_case(case):
 		return run_real_files(case)
 	if case.get('kind') == 'real_bad':
 		return run_real_bad(case)
+	if case.get('kind') == 'reuse_after_failure':
+		return run_reuse_after_failure(case)
 	return _orig_run_case(case)
 
 
@@ -213,6 +258,8 @@ def bounded(tier, seed):
 		for mode in (None, 'threads', 'processes', 'own_executor'):
 			for pos in ((0, 1, 2) if (tier != 'quick' or mode in (None, 'threads')) else (rnd.randrange(3),)):
 				run({'kind': 'real_bad', 'n': 3, 'pos': pos, 'how': how, 'mode': mode, 'seed': 3})
+	for pool, workers in (('threads', 1), ('processes', 1), ('threads', 2)):
+		run({'kind': 'reuse_after_failure', 'pool': pool, 'workers': workers, 'n': 3, 'seed': 7})
 	return {'tool': 'real calc_file_signatures with an executor stub completing futures in every permutation; real thread pool; sequential mode',
 	        'bound': f'all completion orders for n <= {nmax} files, each position of an unreadable file for n <= 4; real files that fail only after the first reads (truncated / corrupt gzip, undecodable byte late in the file) or are missing x 4 execution modes x positions', 'cases': n_cases,
 	        'failures': failures[:3], 'samples': sample}
